@@ -118,3 +118,177 @@ package flags
 //@   ensures[C20] len(choices) == 0 ==> c == "" && d == 0
 //@   ensures[C20] len(choices) > 0 ==> exists(m, 0, len(choices), c == choices[m] && d == editDistance(cmd, choices[m]) && forall(j, 0, m, editDistance(cmd, choices[j]) > d))
 //@   ensures[C20] forall(j, 0, len(choices), d <= editDistance(cmd, choices[j]))
+
+// Trusted data-structure invariant: the pointer slices held in the parser's
+// structures contain no nil element.
+//@ wf nonnil-elements
+
+// ===================================================================
+// reflect (trusted ghost model; only what the verified functions use)
+// ===================================================================
+
+//@ assumed func reflect.Value.Type(v reflect.Value) (t reflect.Type)
+//@   pure
+//@ assumed func reflect.Type.Kind(t reflect.Type) (k reflect.Kind)
+//@   pure
+//@   ensures 0 <= k && k <= 26
+
+// ===================================================================
+// convert.go (assumed for now)
+// ===================================================================
+
+//@ assumed func convert(val string, retval reflect.Value, options multiTag) (err error)
+//@   traced
+
+// ===================================================================
+// parser.go: parseState
+// ===================================================================
+
+//@ pure func isRem(a *Arg) bool = a.value.Type().Kind() == reflect.Slice
+
+//@ func (p *parseState) eof() (r bool)
+//@   props C03 C04
+//@   requires p != nil
+//@   ensures r == (len(p.args) == 0)
+//@   assigns nothing
+
+//@ func (p *parseState) pop() (r string)
+//@   props C03 C04 C10
+//@   requires p != nil
+//@   ensures len(old(p.args)) > 0 ==> r == old(p.args)[0] && p.arg == r && same(p.args, old(p.args)[1:])
+//@   ensures len(old(p.args)) == 0 ==> r == "" && p.arg == old(p.arg) && same(p.args, old(p.args))
+//@   assigns p.arg, p.args
+
+//@ func (p *parseState) peek() (r string)
+//@   props C03 C04
+//@   requires p != nil
+//@   ensures len(p.args) > 0 ==> r == p.args[0]
+//@   ensures len(p.args) == 0 ==> r == ""
+//@   assigns nothing
+
+// addArgs hands tokens to the pending positional arguments in order (the head
+// of the queue receives each token; a slice-typed head stays and absorbs the
+// rest) and appends what is left to retargs.  done = tokens converted so far,
+// q = positional arguments completed so far.
+//@ func (p *parseState) addArgs(args ...string) (err error)
+//@   props C03 C10 C04
+//@   requires p != nil
+//@   loop 1 invariant 0 <= len(args) && len(args) <= len(old(args)) && same(args, old(args)[len(old(args))-len(args):])
+//@   loop 1 invariant 0 <= len(p.positional) && len(p.positional) <= len(old(p.positional)) && same(p.positional, old(p.positional)[len(old(p.positional))-len(p.positional):])
+//@   loop 1 invariant same(p.retargs, old(p.retargs)) && p.err == old(p.err) && p.arg == old(p.arg) && same(p.args, old(p.args))
+//@   loop 1 invariant ncalls(convert) == old(ncalls(convert)) + (len(old(args)) - len(args))
+//@   loop 1 invariant len(old(p.positional)) - len(p.positional) <= len(old(args)) - len(args)
+//@   loop 1 invariant forall(k, 0, len(old(args)) - len(args), callarg(convert, old(ncalls(convert)) + k, 0) == old(args)[k])
+//@   loop 1 invariant forall(k, 0, len(old(args)) - len(args), callarg(convert, old(ncalls(convert)) + k, 1) == old(p.positional)[ite(k < len(old(p.positional)) - len(p.positional), k, len(old(p.positional)) - len(p.positional))].value)
+//@   loop 1 invariant forall(k, 0, len(old(p.positional)) - len(p.positional), !isRem(old(p.positional)[k]))
+//@   loop 1 invariant len(old(p.positional)) - len(p.positional) < len(old(args)) - len(args) ==> len(p.positional) > 0 && isRem(p.positional[0])
+//@   loop 1 decreases len(args)
+//@   let m := ncalls(convert) - old(ncalls(convert))
+//@   ensures[C03,C10] err != nil ==> p.err == err && same(p.retargs, old(p.retargs))
+//@   ensures[C03,C10] err == nil ==> p.err == old(p.err)
+//@   ensures[C03,C10] 0 <= ncalls(convert) - old(ncalls(convert)) && ncalls(convert) - old(ncalls(convert)) <= len(args)
+//@   ensures[C03,C10] forall(k, 0, ncalls(convert) - old(ncalls(convert)), callarg(convert, old(ncalls(convert)) + k, 0) == args[k])
+//@   ensures[C03] err == nil ==> len(p.retargs) == len(old(p.retargs)) + len(args) - (ncalls(convert) - old(ncalls(convert)))
+//@   ensures[C03] err == nil ==> forall(i, 0, len(old(p.retargs)), p.retargs[i] == old(p.retargs)[i])
+//@   ensures[C03] err == nil ==> forall(j, 0, len(args) - (ncalls(convert) - old(ncalls(convert))), p.retargs[len(old(p.retargs)) + j] == args[ncalls(convert) - old(ncalls(convert)) + j])
+//@   ensures[C03,C10] err == nil && ncalls(convert) - old(ncalls(convert)) < len(args) ==> len(p.positional) == 0
+//@   ensures[C10] forall(k, 0, ncalls(convert) - old(ncalls(convert)), callarg(convert, old(ncalls(convert)) + k, 1) == old(p.positional)[ite(k < len(old(p.positional)) - len(p.positional), k, len(old(p.positional)) - len(p.positional))].value)
+//@   ensures[C10] same(p.positional, old(p.positional)[len(old(p.positional))-len(p.positional):]) && len(p.positional) <= len(old(p.positional))
+//@   ensures p.arg == old(p.arg) && same(p.args, old(p.args))
+//@   assigns p.positional, p.retargs, p.err
+
+// ===================================================================
+// error.go
+// ===================================================================
+
+//@ assumed func fmt.Sprintf(format string, a ...interface{}) (s string)
+//@   pure
+//@ assumed func fmt.Errorf(format string, a ...interface{}) (e error)
+//@   ensures e != nil && !is(e, *Error) && !is(e, *IniError)
+//@ assumed func error.Error(e error) (s string)
+//@   pure
+//@ assumed func strconv.Unquote(s string) (r string, err error)
+//@   pure
+//@   ensures err != nil ==> !is(err, *Error) && !is(err, *IniError)
+
+//@ func newError(tp ErrorType, message string) (e *Error)
+//@   props C04
+//@   ensures e != nil && e.Type == tp && e.Message == message
+//@   assigns nothing
+
+//@ func newErrorf(tp ErrorType, format string, args ...interface{}) (e *Error)
+//@   props C04
+//@   ensures e != nil && e.Type == tp
+//@   assigns nothing
+
+//@ func wrapError(err error) (ret *Error)
+//@   props C04 C07
+//@   requires err != nil
+//@   ensures is(err, *Error) ==> ret == as(err, *Error)
+//@   ensures !is(err, *Error) ==> ret != nil && ret.Type == ErrUnknown
+//@   assigns nothing
+
+// ===================================================================
+// option.go (the part the argument loop depends on)
+// ===================================================================
+
+
+//@ assumed func (x *multiTag) Get(key string) (r string)
+//@   pure
+//@ assumed func (option *Option) canArgument() (r bool)
+//@   pure
+//@ assumed func (option *Option) isValidValue(arg string) (err error)
+//@   pure
+//@ assumed func (option *Option) empty()
+//@ assumed func (option *Option) Set(value *string) (err error)
+//@   traced
+//@   requires option != nil
+//@   ensures option.isSet && option.preventDefault && !option.clearReferenceBeforeSet
+//@   ensures is(err, *Error) ==> as(err, *Error) != nil
+//@   assigns option.isSet, option.preventDefault, option.clearReferenceBeforeSet
+//@ assumed func (p *Parser) marshalError(option *Option, err error) (e *Error)
+//@   ensures e != nil && e.Type == ErrMarshal
+
+//@ func unquoteIfPossible(s string) (r string, err error)
+//@   props C02 C04
+//@   ensures len(s) == 0 || s[0] != '"' ==> r == s && err == nil
+//@   ensures len(s) > 0 && s[0] == '"' ==> r == fst(strconv.Unquote(s)) && err == snd(strconv.Unquote(s))
+
+// ===================================================================
+// parser.go: one option occurrence
+// ===================================================================
+
+// The textual value handed to Set for an argument v: unquoted when the option
+// does not forbid it and v starts with a double quote.
+//@ pure func wantsUnquote(o *Option, v string) bool = o.tag.Get("unquote") != "false" && len(v) > 0 && v[0] == '"'
+//@ pure func setValue(o *Option, v string) string = ite(wantsUnquote(o, v), fst(strconv.Unquote(v)), v)
+//@ pure func unquoteFails(o *Option, v string) bool = wantsUnquote(o, v) && snd(strconv.Unquote(v)) != nil
+//@ pure func isTyped(err error, tp ErrorType) bool = is(err, *Error) && as(err, *Error) != nil && as(err, *Error).Type == tp
+//@ pure func oneSet(n0 int, o *Option, v string) bool = ncalls(Option.Set) == n0 + 1 && callarg(Option.Set, n0, 0) == o && callarg(Option.Set, n0, 1) != nil && *callarg(Option.Set, n0, 1) == v
+
+//@ func (p *Parser) parseOption(s *parseState, name string, option *Option, canarg bool, argument *string) (err error)
+//@   props C01 C02 C04 C07
+//@   requires p != nil && s != nil && option != nil
+//@   let ca := option.canArgument()
+//@   let n0 := ncalls(Option.Set)
+//@   let takes := argument == nil && canarg && len(s.args) > 0
+//@   let tok := s.args[0]
+//@   loop 1 invariant ncalls(Option.Set) == old(ncalls(Option.Set)) + idx_1 && same(s.args, old(s.args)) && s.arg == old(s.arg)
+//@   loop 1 invariant forall(k, 0, idx_1, callarg(Option.Set, old(ncalls(Option.Set)) + k, 0) == option && callarg(Option.Set, old(ncalls(Option.Set)) + k, 1) != nil && *callarg(Option.Set, old(ncalls(Option.Set)) + k, 1) == option.OptionalValue[k])
+//@   loop 1 invariant idx_1 > 0 ==> err == nil
+//@   loop 1 invariant is(err, *Error) ==> as(err, *Error) != nil
+//@   ensures[C01,C04] !ca && argument != nil ==> isTyped(err, ErrNoArgumentForBool) && ncalls(Option.Set) == n0 && same(s.args, old(s.args))
+//@   ensures[C01] !ca && argument == nil ==> ncalls(Option.Set) == n0 + 1 && callarg(Option.Set, n0, 0) == option && callarg(Option.Set, n0, 1) == nil && same(s.args, old(s.args))
+//@   ensures[C01,C02] ca && argument != nil ==> same(s.args, old(s.args)) && s.arg == old(s.arg)
+//@   ensures[C01,C02] ca && argument != nil && !unquoteFails(option, *argument) ==> oneSet(n0, option, setValue(option, *argument))
+//@   ensures[C01,C02,C04] ca && argument != nil && unquoteFails(option, *argument) ==> ncalls(Option.Set) == n0 && isTyped(err, ErrMarshal)
+//@   ensures[C01,C02] ca && takes ==> same(s.args, old(s.args)[1:]) && s.arg == tok
+//@   ensures[C02,C04] ca && takes && (option.isValidValue(tok) != nil || (p.Options&PassDoubleDash != 0 && tok == "--")) ==> isTyped(err, ErrExpectedArgument) && ncalls(Option.Set) == n0
+//@   ensures[C01,C02] ca && takes && option.isValidValue(tok) == nil && !(p.Options&PassDoubleDash != 0 && tok == "--") && !unquoteFails(option, tok) ==> oneSet(n0, option, setValue(option, tok))
+//@   ensures[C01,C02,C04] ca && takes && option.isValidValue(tok) == nil && !(p.Options&PassDoubleDash != 0 && tok == "--") && unquoteFails(option, tok) ==> ncalls(Option.Set) == n0 && isTyped(err, ErrMarshal)
+//@   ensures[C01,C02] ca && argument == nil && !takes ==> same(s.args, old(s.args)) && s.arg == old(s.arg)
+//@   ensures[C01,C02] ca && argument == nil && !takes && option.OptionalArgument ==> ncalls(Option.Set) <= n0 + len(option.OptionalValue) && (err == nil ==> ncalls(Option.Set) == n0 + len(option.OptionalValue))
+//@   ensures[C01,C02] ca && argument == nil && !takes && option.OptionalArgument ==> forall(k, 0, ncalls(Option.Set) - n0, callarg(Option.Set, n0 + k, 0) == option && callarg(Option.Set, n0 + k, 1) != nil && *callarg(Option.Set, n0 + k, 1) == option.OptionalValue[k])
+//@   ensures[C02,C04] ca && argument == nil && !takes && !option.OptionalArgument ==> isTyped(err, ErrExpectedArgument) && ncalls(Option.Set) == n0
+//@   ensures[C04] err != nil ==> is(err, *Error) && as(err, *Error) != nil
+//@   assigns s.arg, s.args, Option.isSet, Option.preventDefault, Option.clearReferenceBeforeSet
